@@ -57,12 +57,12 @@ static CaseResult run_case(Tape &t)
 	}
 	if (forced == 3) c.frag = t.range(50, 1200);
 	{
-		// K1: over TXT the client autodetects the Raw downstream codec with a test pattern that contains neither '+' nor '_':
+		// K1: over TXT the client autodetects the Raw downstream codec with a test pattern that contains no '+' (it does contain '_'):
 		// a path that mangles one of them in answer text passes the test and corrupts data.  Trigger: TXT will be the
 		// selected type (NULL and PRIVATE refused, TXT allowed) and answer-side punctuation mangling.
 		bool has_null = false, has_txt = false; for (int x : P.types) { if (x == 10 || x == 65399) has_null = true; if (x == 16) has_txt = true; }
 		bool txt_selected = forced == 1 ? c.qtype == 3 : (!has_null && has_txt);
-		if (!include_known && txt_selected && c.downenc == 0 && (P.a.plus || P.a.under)) { P.a.plus = P.a.under = false; excluded_rawtxt = true; }
+		if (!include_known && txt_selected && c.downenc == 0 && P.a.plus) { P.a.plus = false; excluded_rawtxt = true; }
 	}
 	c.lazy = t.chance(1, 4) ? 0 : 1;
 	c.raw_mode = false;
@@ -82,6 +82,28 @@ static CaseResult run_case(Tape &t)
 	// in its queries
 	int occupied = 0;
 	std::vector<std::unique_ptr<scn::ScriptClient>> others;
+	// one case in five: slot 0 has had an earlier session (directly at the server, on a perfect path): it switched its upstream
+	// codec, downstream codec and fragment size, sent a packet upstream, got one downstream, and fell silent for more than 60 s.
+	// The client under test is then given the same slot; nothing of the earlier session may survive (it may have to stay on
+	// Base32 where the earlier one used Base128).
+	bool prev_session = false;
+	if (t.chance(1, 5)) {
+		std::unique_ptr<scn::ScriptClient> oc(new scn::ScriptClient());
+		oc->addr = sim::Addr::v4(198, 51, 100, 9, 6099); oc->domain = c.domain; oc->password = Bytes(c.password.begin(), c.password.end()); oc->next_id = 15000;
+		oc->qtype_k = 1;
+		oc->attach();
+		static const int UPB[] = {7, 6, 26, 5};
+		if (oc->handshake(t.chance(1, 2), t.range(150, 1100), "VSUR"[t.below(4)], UPB[t.below(4)])) {
+			prev_session = true;
+			int npk = 1 + (int)t.below(4);
+			for (int k = 0; k < npk; k++) oc->send_packet(scn::tun_packet(s.server_tun_ip(), Bytes{10, 0, 0, 2}, t.bytes_of(20 + t.below(60)), (uint16_t)(900 + k)), 100);
+			sim::W.offer_tun(s.srv, scn::tun_packet(Bytes{10, 0, 0, 2}, s.server_tun_ip(), t.bytes_of(300), 950));
+			oc->send_ping(); sim::W.run_for(30000);
+			sim::W.run_for(61000000 + t.below(10000000));
+			tm.ev.clear();   // what the earlier (scripted) session wrote and read is not part of the judged history
+		}
+		others.push_back(std::move(oc));
+	} else
 	if (t.chance(1, 4)) {
 		int n = t.range(10, 15);
 		for (int k = 0; k < n; k++) {
@@ -175,7 +197,7 @@ static CaseResult run_case(Tape &t)
 			int count = 0; size_t first = 0;
 			for (size_t k = 0; k < wr.size(); k++) if (wr[k].data == pk[i]) { if (!count) first = k; count++; }
 			bool forced_broken = forced == 2 && ((c.downenc == 2 && (P.a.kase != 0 || P.a.plus)) || (c.downenc == 3 && (P.a.kase != 0 || P.a.under)) || (c.downenc == 4 && (P.a.kase != 0 || P.a.hi != 0)));
-			bool rawtxt = neg_type == 16 && neg_down == "Raw" && (P.a.plus || P.a.under);
+			bool rawtxt = neg_type == 16 && neg_down == "Raw" && P.a.plus;
 			if (count == 0) r.fail(dir == 1 && forced_broken ? "C11:forced-downstream-codec-not-verified" : (dir == 1 && rawtxt ? "C11:raw-codec-test-blind-to-punctuation" : (dir == 0 ? "C11:upstream-lost" : "C11:downstream-lost")), fmt("after a successful handshake, %s packet #%zu (%zu bytes) was not delivered through the same relay", dir == 0 ? "upstream" : "downstream", i, pk[i].size()) + "\n" + render);
 			else if (first < pos) r.fail("C11:reordered", "packets delivered out of order\n" + render);
 			pos = first;
@@ -187,6 +209,7 @@ static CaseResult run_case(Tape &t)
 	r.cls("tunnel-up"); if (together) r.cls("both-directions-at-once"); r.cls("up:" + neg_up); r.cls("down:" + neg_down); r.cls(fmt("type:%d", neg_type));
 	r.cls(neg_frag >= 1000 ? "frag>=1000" : (neg_frag >= 400 ? "frag400-999" : (neg_frag >= 150 ? "frag150-399" : "frag<150")));
 	if (occupied >= 10) r.cls("user-number>=10");
+	if (prev_session) r.cls("slot-had-an-earlier-session");
 	if (forced) r.cls(forced == 1 ? "forced-T" : (forced == 2 ? "forced-O" : "forced-m"));
 	if (excluded_rawtxt) r.cls("excluded-known:K1-raw-over-TXT-with-punctuation-mangling");
 	if (excluded_forced) r.cls("excluded-known:K2-forced-codec-that-the-path-breaks");
